@@ -1047,8 +1047,16 @@ func judgeMin(c minCase, out outcome, reused bool) *vk.Failure {
 	// ---- a serial run is reproducible, and a reused method value behaves like a fresh one
 	if serial {
 		o2 := runMin(c)
+		// When the objective never returned a value below +Inf the global
+		// methods report F = +Inf with whatever their best-location buffer holds
+		// (zeros in a new method value, the best point of the previous run in a
+		// reused one); nothing is documented for X in that situation.
+		noValue := reused && !c.local() && out.tp.anyBad && badF
+		if noValue && !sameBitsVec(o2.res.X, res.X) {
+			vk.Class("min-reuse/stale-best-x-without-any-finite-value")
+		}
 		same := o2.res != nil && o2.panicText == "" && o2.mpanic == "" &&
-			o2.res.Status == res.Status && vk.SameBits(o2.res.F, res.F) && sameBitsVec(o2.res.X, res.X) && sameBitsVec(o2.res.Gradient, res.Gradient) &&
+			o2.res.Status == res.Status && vk.SameBits(o2.res.F, res.F) && (sameBitsVec(o2.res.X, res.X) || noValue) && sameBitsVec(o2.res.Gradient, res.Gradient) &&
 			o2.res.Stats.MajorIterations == st.MajorIterations && o2.res.Stats.FuncEvaluations == st.FuncEvaluations &&
 			o2.res.Stats.GradEvaluations == st.GradEvaluations && o2.res.Stats.HessEvaluations == st.HessEvaluations &&
 			fmt.Sprint(o2.err) == fmt.Sprint(out.err)
@@ -1060,7 +1068,7 @@ func judgeMin(c minCase, out outcome, reused bool) *vk.Failure {
 			if reused {
 				// Method.Init "initializes the method for optimization": a used
 				// method value must behave like a new one
-				return vk.Failf("reused-method-differs-from-fresh-method", "the same run with a fresh method value: status=%v err=%v X=%v F=%v stats=%+v; with the reused one: %s", r2.Status, o2.err, r2.X, r2.F, r2.Stats, desc())
+				return vk.Failf("reused-method-differs-from-fresh-method/"+name, "the same run with a fresh method value: status=%v err=%v X=%v F=%v stats=%+v; with the reused one: %s", r2.Status, o2.err, r2.X, r2.F, r2.Stats, desc())
 			}
 			return vk.Failf("serial-run-not-reproducible", "second run: status=%v err=%v X=%v F=%v stats=%+v; first: %s", r2.Status, o2.err, r2.X, r2.F, r2.Stats, desc())
 		}
